@@ -3,6 +3,7 @@
 //   - an independent strict chunk/CRC/zlib-stored/Adler/scanline walker (ref.go, std hash packages),
 //   - image/png.Decode: same dimensions and pixel values (alpha opaque for RGBX),
 //   - sequences of images on ONE Encoder (reuse), writer errors propagate, bad arguments write nothing.
+//
 // It also ties Model/Png/Spec.lean (the decoder the theorems are stated against) to the reference
 // walker on real encoder output and on crafted valid / malformed streams.
 package main
@@ -148,13 +149,18 @@ func (w *recWriter) Write(p []byte) (int, error) {
 type encCase struct {
 	w, h, stride int
 	depth, ct    int
-	pix          pixSpec
+	pix          pixSpec // the cap(pix) bytes of the backing array
+	plen         int     // len(pix) when smaller than the capacity; 0 with lenSet=false: len = cap
+	lenSet       bool
 	failAt       int // -1: never
 	tag          string
 }
 
 func (c encCase) line() string {
 	s := fmt.Sprintf("encode %d %d %d %d %d %s", c.w, c.h, c.stride, c.depth, c.ct, c.pix.token())
+	if c.lenSet {
+		s += fmt.Sprintf(" len:%d", c.plen)
+	}
 	if c.failAt >= 0 {
 		s += fmt.Sprintf(" failat:%d", c.failAt)
 	}
@@ -263,6 +269,13 @@ func pngPixels(m image.Image, f *pixFmt) ([]byte, string) {
 			}
 		}
 	case *image.NRGBA:
+		if f.name == "rgbx8" {
+			for i := 3; i < len(m.Pix); i += 4 {
+				if m.Pix[i] != 0xFF {
+					return nil, "alpha not opaque (NRGBA)"
+				}
+			}
+		}
 		if f.name != "nrgba8" {
 			return nil, "type NRGBA"
 		}
@@ -270,6 +283,13 @@ func pngPixels(m image.Image, f *pixFmt) ([]byte, string) {
 			out = append(out, m.Pix[y*m.Stride:y*m.Stride+4*w]...)
 		}
 	case *image.NRGBA64:
+		if f.name == "rgbx16" {
+			for i := 6; i+1 < len(m.Pix); i += 8 {
+				if m.Pix[i] != 0xFF || m.Pix[i+1] != 0xFF {
+					return nil, "alpha not opaque (NRGBA64)"
+				}
+			}
+		}
 		if f.name != "nrgba16" {
 			return nil, "type NRGBA64"
 		}
@@ -288,6 +308,10 @@ func (q *seq) encode(c encCase) int {
 	r := q.r
 	pix := c.pix.bytes()
 	pix = pix[:len(pix):len(pix)]
+	if c.lenSet {
+		pix = pix[:c.plen] // len < cap: Go checks row[:k*width] against the capacity
+		r.Count("len<cap")
+	}
 	rw := &recWriter{failAt: c.failAt, rng: r.Rand.Fork()}
 	var err error
 	out, msg := hlib.GuardMsg(func() string {
@@ -330,7 +354,9 @@ func (q *seq) encode(c encCase) int {
 		return 0
 	}
 	r.Count("fmt:" + f.name)
-	inProperty := c.w > 0 && c.h > 0 && c.stride >= f.k*c.w && (c.h-1)*c.stride+f.k*c.w <= len(pix)
+	// (overflow-safe: stride may be anywhere in the int range)
+	inProperty := c.w > 0 && c.h > 0 && c.stride >= f.k*c.w && f.k*c.w <= len(pix) &&
+		(c.h == 1 || c.stride <= (len(pix)-f.k*c.w)/(c.h-1))
 	if !inProperty {
 		r.Count("outside-property(tie-only)")
 		return len(rw.writes)
@@ -384,7 +410,11 @@ func (q *seq) encode(c encCase) int {
 	} else if m.Bounds() != image.Rect(0, 0, c.w, c.h) {
 		q.fail("png.Decode-bounds:"+fname, fmt.Sprintf("image/png bounds %v", m.Bounds()))
 	} else if got, bad := pngPixels(m, f); bad != "" {
-		q.fail("png.Decode-type:"+fname, "image/png decoded "+bad)
+		if strings.HasPrefix(bad, "alpha not opaque") {
+			q.fail("alpha-not-opaque:"+fname, "image/png reports a non-opaque pixel for the RGBX type: "+bad)
+		} else {
+			q.fail("png.Decode-type:"+fname, "image/png decoded "+bad)
+		}
 	} else if !bytes.Equal(got, want) {
 		q.fail("png.Decode-pixels:"+fname, "image/png pixels differ from the input")
 	}
@@ -506,7 +536,9 @@ func (q *seq) stats(c encCase, f *pixFmt, im *refImage, writes [][]byte) {
 
 // ---- generators
 
-func seeded(r *hlib.Rand, n int) pixSpec { return pixSpec{kind: "seeded", seed: r.Uint64() >> 12, n: n} }
+func seeded(r *hlib.Rand, n int) pixSpec {
+	return pixSpec{kind: "seeded", seed: r.Uint64() >> 12, n: n}
+}
 
 func somePix(r *hlib.Rand, n int) pixSpec {
 	switch r.Intn(8) {
@@ -530,7 +562,13 @@ func mk(r *hlib.Rand, f pixFmt, w, h, extra int, tag string) encCase {
 	if r.Chance(1, 4) {
 		n += r.Intn(9) // a longer buffer than needed
 	}
-	return encCase{w: w, h: h, stride: stride, depth: f.depth, ct: f.ct, pix: somePix(r, n), failAt: -1, tag: tag}
+	c := encCase{w: w, h: h, stride: stride, depth: f.depth, ct: f.ct, failAt: -1, tag: tag}
+	if r.Chance(1, 8) {
+		c.plen, c.lenSet = n, true // capacity beyond the length
+		n += r.Range(1, 9)
+	}
+	c.pix = somePix(r, n)
+	return c
 }
 
 func ceilDiv(a, b int) int { return (a + b - 1) / b }
@@ -717,7 +755,27 @@ func generate(r *hlib.Run) []encCase {
 	for i := 0; i < nF; i++ {
 		f := fmts[rng.Intn(len(fmts))]
 		c := mk(rng, f, rng.Range(1, 40), rng.Range(1, 40), 0, "F:outside")
-		switch rng.Intn(9) {
+		switch rng.Intn(11) {
+		case 9, 10:
+			// len(pix) too short but cap(pix) sufficient (or nearly): Go slices row[:k*width] against the
+			// capacity, so rows may lie beyond len(pix); the start y*stride must still be <= len(pix)
+			b := c.pix.bytes()
+			if c.lenSet {
+				b = b[:c.plen]
+			}
+			need := len(b)
+			c.plen, c.lenSet = rng.Intn(need+1), true
+			capN := need - rng.Intn(3) + rng.Intn(3)
+			if capN < c.plen {
+				capN = c.plen
+			}
+			for len(b) < capN {
+				b = append(b, byte(rng.Intn(256)))
+			}
+			c.pix = pixSpec{kind: "hex", data: b[:capN]}
+			if capN > 2000 {
+				c.pix = pixSpec{kind: "seeded", seed: 7, n: capN}
+			}
 		case 0:
 			c.w = 0
 		case 1:
@@ -728,6 +786,7 @@ func generate(r *hlib.Run) []encCase {
 			c.stride = -rng.Range(1, 9)
 		case 4:
 			b := c.pix.bytes()
+			c.lenSet = false
 			c.pix = pixSpec{kind: "hex", data: b[:rng.Intn(len(b))]}
 			if len(c.pix.data) > 2000 {
 				c.pix = pixSpec{kind: "seeded", seed: 5, n: len(c.pix.data)}
@@ -742,6 +801,12 @@ func generate(r *hlib.Run) []encCase {
 			c.ct = []int{0, 4, 5, 6, 255}[rng.Intn(5)]
 		}
 		add(c)
+	}
+	// strides at the edge of the 64-bit int range (tie only: y*stride wraps in Go and in the model)
+	for _, st := range []int{1 << 62, 1<<63 - 1, -1 << 63, 1 << 61, 1 << 40, -(1 << 40), 1<<62 + 1} {
+		for _, h := range []int{1, 2, 4, 5, 9} {
+			add(encCase{w: 2, h: h, stride: st, depth: 8, ct: 1, pix: pixSpec{kind: "hex", data: []byte{1, 2, 3, 4, 5, 6}}, failAt: -1, tag: "F:stride-int64-edge"})
+		}
 	}
 	for _, wh := range [][2]int{{0x1000000, 1}, {1, 0x1000000}, {0x1000000, 0x1000000}, {1 << 40, 1}} {
 		add(encCase{w: wh[0], h: wh[1], stride: 4, depth: 8, ct: 1, pix: pixSpec{kind: "hex", data: []byte{1, 2, 3, 4}}, failAt: -1, tag: "F:too-big"})
